@@ -1081,6 +1081,36 @@ func c10Dueng(p *Prog, r *Report) {
 			r.Ob("split:"+shortRoot(root), "-", false, "no store to "+root+" in dueng")
 		}
 	}
+	// the table's loss fraction is an ammonia loss: it reduces the ammonium part and, by the same amount, the
+	// direct-N total; the non-ammonium part (direct N − ammonium N) must therefore not depend on it
+	{
+		var vol *Atom
+		var ndir, nh4 *Event
+		for _, e := range x.Events {
+			if e.Kind != "assign" {
+				continue
+			}
+			if e.Local != nil && e.Local.Name() == "VOL" {
+				if t := e.Val.single(); t != nil && len(t.M) == 1 {
+					vol = t.M[0].A
+				}
+			}
+			if e.Root == "GlobalVarsMain.NDIR" {
+				ndir = e // the last store is the value after the loss
+			}
+			if e.Root == "GlobalVarsMain.NH4N" {
+				nh4 = e
+			}
+		}
+		if vol == nil || ndir == nil || nh4 == nil {
+			r.Ob("loss-on-ammonium-only", "-", false, "loss fraction, direct-N or ammonium store not found in dueng")
+		} else {
+			d := ndir.Val.Sub(nh4.Val)
+			dep := d.MentionsAtom(vol)
+			usesLoss := ndir.Val.MentionsAtom(vol) && nh4.Val.MentionsAtom(vol)
+			r.Ob("loss-on-ammonium-only", p.Pos(ndir.Pos), !dep && usesLoss, fmt.Sprintf("direct N − ammonium N = %s; independent of the loss fraction: %v; both parts are reduced by the loss: %v", clip(stripVersions(d).String(), 200), !dep, usesLoss))
+		}
+	}
 	// (investigated and not armed: the pre-crop branch of the rotation reader calls dueng(SLFIND) while it stores code
 	// and quantity at SLFIND-1; slot 0's N parts are overwritten by the residue pseudo-event afterwards, so the
 	// inconsistency has no observable effect and is not a violation of this property)
